@@ -229,6 +229,40 @@ impl Check for C11 {
                 st.sample(|| J::obj().with("one_shuffled_rendering", J::s(t)));
             }
         }
+        // a definite mismatch against a *declared type* must be rejected wherever the type's declaration stands
+        let ill: &[&[&str]] = &[
+            &["ZShape :: enum\n    Circle,\n    Square,\nend\n", "ZTile :: enum\n    Hex,\nend\n", "zside :: fn s: ZShape -> int do\n    1\nend\n", "zbadcall :: zside(ZTile.Hex)\n"],
+            &["ZMode :: enum\n    On,\n    Off,\nend\n", "ZCfg :: blob {\n    m: ZMode,\n}\n", "zbadcfg :: ZCfg { m: \"on\" }\n"],
+            &["ZMode2 :: enum\n    On,\n    Off,\nend\n", "zbadval : ZMode2 : 1\n"],
+            &["ZPa :: blob {\n    a: int,\n}\n", "ZPb :: blob {\n    b: int,\n}\n", "ztake :: fn p: ZPa -> int do\n    p.a\nend\n", "zbadblob :: ztake(ZPb { b: 1 })\n"],
+            &["ZPay :: enum\n    Num int,\n    Non,\nend\n", "zunwrap :: fn p: ZPay -> int do\n    case p do\n        Num n ->\n            n\n        end\n        Non ->\n            0\n        end\n    end\nend\n", "zbadpay :: zunwrap(ZPay.Num \"s\")\n"],
+        ];
+        let chosen = ill[rng.below(ill.len())];
+        let mut p3 = p.clone();
+        for c in chosen.iter() {
+            p3.items.push(Item::Raw(c.to_string()));
+        }
+        let n3 = p3.items.len();
+        for k in 0..4 {
+            let mut o: Vec<usize> = (0..n3).collect();
+            match k {
+                0 => {}
+                1 => o.reverse(),
+                _ => rng.shuffle(&mut o),
+            }
+            let text = crate::rel::print_with(&p3, &name, &all_annot, None, None, Some(&o));
+            st.count("ill_typed_variants_tried");
+            match behaviour(&sy::one_file(&text), "main.sy") {
+                Behaviour::Rejected(_) => st.count("ill_typed_variants_rejected"),
+                Behaviour::NoVerdict(_) => st.count("ill_typed_variants_no_verdict"),
+                other => st.violation(Violation {
+                    signature: "order:ill-typed-program-accepted-in-some-order".into(),
+                    hazard: None,
+                    case: index,
+                    detail: J::obj().with("planted", J::Arr(chosen.iter().map(|c| J::s(*c)).collect())).with("order", J::Int(k)).with("behaviour", J::s(format!("{:?}", other).chars().take(400).collect::<String>())).with("text", J::s(text)),
+                }),
+            }
+        }
         // cyclic initialisers must be rejected in every order
         let cyc = cyclic_items(&mut rng);
         let mut p2 = p.clone();
@@ -271,7 +305,7 @@ impl Check for C11 {
         }
         Finish {
             level: "exploration",
-            rule: "generated programs extended with 15 top-level definitions covering every dependency kind (reads, call in an initialiser, assignment from a function, compound assignment, types used before declaration, nested blob instantiation, variant construction, closure returned by a function, list of globals) are rendered in 7 top-level orders (as generated, reversed, 4 shuffles, users-first); acceptance, print trace, outcome and uninitialised-read monitor events under luamon must agree. Variants with cyclic initialisers (4 shapes) must be rejected in 3 orders. Non-trivial: every judged program; distinct by source hash.".into(),
+            rule: "generated programs extended with 15 top-level definitions covering every dependency kind (reads, call in an initialiser, assignment from a function, compound assignment, types used before declaration, nested blob instantiation, variant construction, closure returned by a function, list of globals) are rendered in 7 top-level orders (as generated, reversed, 4 shuffles, users-first); acceptance, print trace, outcome and uninitialised-read monitor events under luamon must agree. Variants with cyclic initialisers (7 shapes) must be rejected in 3 orders, and variants with a definite mismatch against a declared enum/blob type (5 shapes) in 4 orders, wherever the type's declaration stands. Non-trivial: every judged program; distinct by source hash.".into(),
             extra: J::obj(),
             assumptions: vec!["global initialisers are side-effect free (the generator only builds such), so the expected behaviour is order-independent by construction".into(), "luamon models Lua 5.3".into()],
             exhaustive: false,
